@@ -23,14 +23,53 @@ pub const ODD_ROUTES: [&str; 14] = [
     "", "/", "*", ":", "{}", "/*", "/:x", "/a//b", "/%2F", "/..", "/\0", "no-slash", "/é/ü/日本", "//",
 ];
 
+/// Text a hostile peer may put where the library expects a string: any length, any mix of 1-4 byte
+/// UTF-8 sequences, with a multi-byte character placed across every byte offset up to 300 as `sweep`
+/// advances (so that any byte-offset slicing or fixed-size buffering of it is exercised).
+pub fn hostile_text(rng: &mut StdRng, sweep: usize, lead: &str) -> String {
+    const WIDE: [&str; 6] = ["é", "ü", "日", "本", "😀", "\u{10FFFF}"];
+    let mut s = String::from(lead);
+    let ascii = sweep % 300;
+    while s.len() < ascii {
+        s.push((b'a' + (s.len() % 26) as u8) as char);
+    }
+    s.push_str(WIDE[sweep % WIDE.len()]);
+    for _ in 0..rng.gen_range(0..40) {
+        if rng.gen_bool(0.5) {
+            s.push_str(WIDE.choose(rng).unwrap());
+        } else {
+            s.push(*['/', 'x', '*', ':', '%', ' ', '\0', '{', '.'].choose(rng).unwrap());
+        }
+    }
+    if rng.gen_bool(0.1) {
+        for _ in 0..rng.gen_range(100..2000) {
+            s.push_str(WIDE.choose(rng).unwrap());
+        }
+    }
+    s
+}
+
 fn valid_request(id: u64, rng: &mut StdRng, resp_len: u32) -> (Vec<u8>, Script) {
+    valid_request_sweep(id, rng, resp_len, None)
+}
+
+fn valid_request_sweep(id: u64, rng: &mut StdRng, resp_len: u32, sweep: Option<usize>) -> (Vec<u8>, Script) {
     let script = Script { delay_us: rng.gen_range(0..3) * 10_000, resp_len, status: 200, nhdr: 1, seed: rng.gen::<u64>() | 1 };
     let mut headers = vec![(H_ID.to_owned(), id.to_string()), (H_SCRIPT.to_owned(), script.encode())];
     if rng.gen_bool(0.3) {
         // deadlines a hostile peer may announce: unparsable, absurdly small, huge
         headers.push(("timeout".into(), ["0x", "-5", "99999999999999999999999", "abc", "", "0", "1", "50", "1000", "18446744073709551615", "100000000000"].choose(rng).unwrap().to_string()));
     }
-    let route = if rng.gen_bool(0.3) { ODD_ROUTES.choose(rng).unwrap().to_string() } else { "/probe".to_owned() };
+    let mut route = if rng.gen_bool(0.3) { ODD_ROUTES.choose(rng).unwrap().to_string() } else { "/probe".to_owned() };
+    if let Some(sw) = sweep {
+        if rng.gen_bool(0.6) {
+            let lead = if rng.gen_bool(0.7) { "/" } else { "" };
+            route = hostile_text(rng, sw, lead);
+        }
+        if rng.gen_bool(0.3) {
+            headers.push((hostile_text(rng, sw / 3, "x-"), hostile_text(rng, sw + 1, "")));
+        }
+    }
     let body = gen_bytes(id, rng.gen_range(0..3000));
     (refwire::encode_request(&route, &headers, &body), script)
 }
@@ -248,15 +287,31 @@ pub fn scenario(idx: usize, seed: u64, steps: usize) -> ScenarioResult {
                 let _ = tx.finish();
                 alog.finished_strings.push(b);
             } else if kind < 70 {
-                act = "stop-response";
-                let (b, _) = valid_request(id, &mut rng, 200_000);
+                // a complete, well-formed request (hostile route/header text) whose exchange the peer
+                // then abandons at a seeded point: before the handler starts, while it runs (script
+                // delay 0-20 ms), or while the response is written
+                let rl = *[0u32, 100, 200_000].choose(&mut rng).unwrap();
+                let (b, _) = valid_request_sweep(id, &mut rng, rl, Some(idx * 7 + step));
                 let _ = tx.write_all(&b).await;
-                let _ = tx.finish();
+                let reset_instead = rng.gen_bool(0.25);
+                // complete either way: the victim may legitimately serve it
                 alog.finished_strings.push(b);
-                if rng.gen_bool(0.5) {
-                    tokio::time::sleep(lat * rng.gen_range(0..4)).await;
+                if !reset_instead {
+                    let _ = tx.finish();
                 }
-                let _ = rx.stop(3u32.into());
+                if rng.gen_bool(0.7) {
+                    tokio::time::sleep(lat * rng.gen_range(0..4) + Duration::from_millis(rng.gen_range(0..25))).await;
+                }
+                if reset_instead {
+                    act = "valid-then-reset";
+                    let _ = tx.reset(5u32.into());
+                    if rng.gen_bool(0.5) {
+                        let _ = rx.stop(3u32.into());
+                    }
+                } else {
+                    act = "stop-response";
+                    let _ = rx.stop(3u32.into());
+                }
             } else if kind < 72 {
                 act = "trickle-past-own-deadline";
                 let script = Script { delay_us: 0, resp_len: 10, status: 200, nhdr: 0, seed: 3 };
@@ -328,7 +383,7 @@ pub fn scenario(idx: usize, seed: u64, steps: usize) -> ScenarioResult {
                 // well-formed probe on a fresh stream: must be served correctly
                 act = "well-formed-probe";
                 let resp_len = rng.gen_range(0..4000u32);
-                let (b, script) = valid_request(id, &mut rng, resp_len);
+                let (b, script) = valid_request_sweep(id, &mut rng, resp_len, Some(idx * 7 + step));
                 let _ = tx.write_all(&b).await;
                 let _ = tx.finish();
                 alog.finished_strings.push(b.clone());
@@ -499,12 +554,12 @@ pub fn run(ctx: &Ctx) -> i32 {
         tier,
         seed: ctx.seed,
         level: "exploration",
-        rule: "scenario = victim + honest bystander (real Networks) and an admitted adversary endpoint on the fabric; the adversary runs a seeded programme of 40 (thorough 120) actions from {random bytes, valid request mutated at 1-8 positions, valid request truncated at a swept offset then finish/reset/left open, length prefixes 0/1/max-1/max/max+1/2^31/2^32-1, bincode headers announcing 2^60 entries, stop the response stream, open and never write, 100/101/300 streams, uni streams + datagrams, abrupt close with requests in flight + reconnect, well-formed probe} concurrently with honest RPCs in both directions; monitors: process-wide panic hook, is_closed(), C02 oracle + latency bound (20x baseline) on honest RPCs, correctness of well-formed probes on fresh streams while the adversary holds < 50 streams, and 'every handler start attributed to the adversary equals a complete valid request it sent (independent parser)'; distinct by (frame limit, loss, number of action kinds)".into(),
+        rule: "scenario = victim + honest bystander (real Networks) and an admitted adversary endpoint on the fabric; the adversary runs a seeded programme of 40 (thorough 120) actions from {random bytes, valid request mutated at 1-8 positions, valid request truncated at a swept offset then finish/reset/left open, length prefixes 0/1/max-1/max/max+1/2^31/2^32-1, bincode headers announcing 2^60 entries, complete request with hostile route/header text (1-4 byte UTF-8 sequences swept across byte offsets 0..300, up to 8 kB) then stop the response stream or reset the request stream before/while/after the handler runs, open and never write, 100/101/300 streams, uni streams + datagrams, abrupt close with requests in flight + reconnect, well-formed probe} concurrently with honest RPCs in both directions; monitors: process-wide panic hook, is_closed(), C02 oracle + latency bound (20x baseline) on honest RPCs, correctness of well-formed probes on fresh streams while the adversary holds < 50 streams, and 'every handler start attributed to the adversary equals a complete valid request it sent (independent parser)'; distinct by (frame limit, loss, number of action kinds)".into(),
         assumptions: vec!["only inputs expressible through QUIC streams/datagrams of an authenticated peer; memory exhaustion is not judged".into()],
         summary,
         extra: Default::default(),
         exhaustive: None,
         min_signatures: 6,
-        required_counters: vec!["adversary_actions", "well_formed_probes_ok", "honest_rpcs_during_attack", "requests_from_adversary_served", "adv:trickle-past-own-deadline", "adv:truncated+finish", "adv:length-prefix", "adv:stop-response", "adv:abrupt-close-with-inflight", "adv:stream-flood"],
+        required_counters: vec!["adversary_actions", "well_formed_probes_ok", "honest_rpcs_during_attack", "requests_from_adversary_served", "adv:trickle-past-own-deadline", "adv:truncated+finish", "adv:length-prefix", "adv:stop-response", "adv:valid-then-reset", "adv:abrupt-close-with-inflight", "adv:stream-flood"],
     })
 }
